@@ -17,10 +17,17 @@ class Access:
 
 
 class LenCheck:
-    def __init__(self, repo, ci, env):
+    def __init__(self, repo, ci, env, initial=None):
+        """env: attribute values decoded from the buffer in this scenario
+        (e.g. {'self.ver': 1}); initial: their values *before* the parser
+        assigns them (constructor defaults).  An attribute switches from its
+        initial to its scenario value at the statement that assigns it."""
         self.repo = repo
         self.ci = ci
-        self.env = dict(env)          # e.g. {'self.ver': 1}
+        self.scen = dict(env)
+        self.env = dict(env)
+        if initial:
+            self.env.update(initial)
         self.acc = []
         self.raises = []              # (node, class, func)
         self.steps = 0
@@ -78,7 +85,11 @@ class LenCheck:
                 name, op, kexpr = bl
                 try:
                     K = self.ev(mod, kexpr)
-                except (Unknown, Raised) as e:
+                except Raised as e:
+                    # evaluating the bound itself raises (e.g. HDR_LEN for an unhandled version)
+                    self.raises.append((st, e.cls, qn))
+                    return []
+                except Unknown as e:
                     raise AnalysisError("lencheck: bound `%s` does not fold: %s" % (canon(kexpr), e))
                 tb, fb = dict(bufs), dict(bufs)
                 if op is ast.Lt:
@@ -112,6 +123,10 @@ class LenCheck:
             return []
         if isinstance(st, ast.Assign):
             self.scan(st.value, c, qn, bufs, depth)
+            for t in st.targets:
+                k = canon(t)
+                if k in self.scen:
+                    self.env[k] = self.scen[k]
             # buffer aliases: x = memoryview(buf)[K:] / x = buf / x = bytearray(buf)
             if len(st.targets) == 1 and isinstance(st.targets[0], ast.Name):
                 tgt = st.targets[0].id
